@@ -180,3 +180,79 @@ def close(a, b, rel=1e-10, abs_=0.0):
     if math.isnan(a) or math.isnan(b):
         return False
     return abs(a - b) <= max(rel * max(abs(a), abs(b)), abs_)
+
+
+# ------------------------------------------------------------------------------------------ operation histories
+# E1-style exploration of live composites.  A history is a list of operations applied to a start object:
+#     ["add", key, amount]            in-place  obj.add(key, amount)     (key already present or new)
+#     ["plus", [[key, amount], ...]]  obj = obj + other                   (other: fresh composite of the same kind)
+#     ["mul", k]                      obj = obj * k  (Substance)  /  k * obj  (Material)
+# The reference state is nothing but the ordered dict {component: amount}.
+def model_apply(counts, op):
+    c = dict(counts)
+    if op[0] == "add":
+        c[op[1]] = (c[op[1]] + op[2]) if op[1] in c else op[2]
+    elif op[0] == "plus":
+        for k, v in op[1]:
+            c[k] = (c[k] + v) if k in c else v
+    elif op[0] == "mul":
+        c = {k: v * op[1] for k, v in c.items()}
+    else:
+        raise ValueError(op)
+    return c
+
+
+def model_run(counts, history):
+    for op in history:
+        counts = model_apply(counts, op)
+    return counts
+
+
+def op_class(counts, op):
+    """feature of an operation relative to the state it is applied to (used as a tag)"""
+    if op[0] == "add":
+        return "add-existing" if op[1] in counts else "add-new"
+    if op[0] == "plus":
+        keys = [k for k, _ in op[1]]
+        if not any(k in counts for k in keys):
+            return "plus-disjoint"
+        return "plus-shared-last" if keys[-1] in counts else "plus-shared"
+    return "mul"
+
+
+def history_tags(counts, history):
+    tags = set()
+    for i, op in enumerate(history):
+        cl = op_class(counts, op)
+        tags.add("op:" + cl)
+        if i == len(history) - 1:
+            tags.add("last:" + cl)
+        counts = model_apply(counts, op)
+    tags.add("depth=%d" % len(history))
+    return sorted(tags)
+
+
+def real_run(obj, history, make_other, material):
+    """apply the history to the live object; make_other(pairs) builds the right operand of '+'"""
+    for op in history:
+        if op[0] == "add":
+            obj.add(op[1], op[2])
+        elif op[0] == "plus":
+            obj = obj + make_other(op[1])
+        elif material:
+            obj = op[1] * obj
+        else:
+            obj = obj * op[1]
+    return obj
+
+
+def histories(alphabet, depth):
+    """every sequence of 1..depth operations, shortest first"""
+    import itertools
+    for n in range(1, depth + 1):
+        for h in itertools.product(alphabet, repeat=n):
+            yield [list(o) for o in h]
+
+
+def state_key(start, counts):
+    return (start,) + tuple((k, float(v)) for k, v in counts.items())
